@@ -289,6 +289,7 @@ class Replay:
         self.max_cache = 0
         self.seam = seams.NoiseSeam(mode, K, perturb, B=(cfg['size'][0] if len(cfg['size']) == 2 else 1))
         self.meters = seams.Meters(budget)
+        self.seam.meters = self.meters
         self.b = None
         self.given = given or (None, None)
         self.min_len = None
